@@ -632,7 +632,7 @@ class Gtxns(Instruction):
         return self._field
 
     def __str__(self) -> str:
-        return f"Gtxns {self._field}"
+        return f"gtxns {self._field}"
 
     @property
     def stack_pop_size(self) -> int:
@@ -673,7 +673,7 @@ class Gtxnsa(Instruction):
         return self._field
 
     def __str__(self) -> str:
-        return f"Gtxnsa {self._field}"
+        return f"gtxnsa {self._field}"
 
     @property
     def stack_pop_size(self) -> int:
@@ -3939,7 +3939,7 @@ class Gtxnas(Instruction):
         return self._field
 
     def __str__(self) -> str:
-        return f"Gtxnas {self._idx} {self._field}"
+        return f"gtxnas {self._idx} {self._field}"
 
     @property
     def stack_pop_size(self) -> int:
@@ -5184,7 +5184,7 @@ class Gitxnas(Instruction):
         return 1
 
     def __str__(self) -> str:
-        return f"Gitxnas {self._idx} {self._field}"
+        return f"gitxnas {self._idx} {self._field}"
 
 
 class Method(Instruction):
@@ -5204,7 +5204,7 @@ class Method(Instruction):
         return 1
 
     def __str__(self) -> str:
-        return f"method {self.method_signature}"
+        return f'method "{self.method_signature}"'
 
 
 class Replace2(Instruction):
